@@ -252,7 +252,8 @@ def run(ctx):
             stats["plans_round_tripped"] += len(plans)
             stats["metric_kinds"][info["metricP"]] = stats["metric_kinds"].get(info["metricP"], 0) + 1
             cases.append(case)
-            owners.append({"P": P, "Q": Q, "w": w, "reader": rname, "type_name": w.get_pddl_name, "payload": payload, "info": info, "feats": feats, "nplans": len(plans)})
+            owners.append({"P": P, "Q": Q, "w": w, "reader": rname, "type_name": w.get_pddl_name,
+                           "rebuild": (lambda P2, Q2, w=w: io.build_case(P2, Q2, key_through(w.get_item_named), depth, cap, split_intervals=True)[0]), "payload": payload, "info": info, "feats": feats, "nplans": len(plans)})
     io.tick(ctx, "implementation runs")
     codes = ctx.coq_codes(cases, "Corr_C18.code", imports=io.IMPORTS, shard=8, label="c18") if cases else []
     io.tick(ctx, "coq")
@@ -305,6 +306,13 @@ def report(ctx, pid, o, case, bis, tdiff, pfail, to_q, depth, cap, extra_tags=()
             confirmed = True
             orc = {"kind": why, "orig_metric": str(mp), "reread_metric": str(mq)}
         payload["simulator_oracle"] = orc
+        if not confirmed and bis - 100 in (3, 4, 5) and io.only_undefined_reads(ctx, o):
+            # under the documented strict semantics the two problems differ, the implementation's simulator (which
+            # simplifies / short-circuits away reads of undefined fluents) does not show it: inherited from C01
+            confirmed = True
+            tags = tags + ["strict-undefined-read"]
+            payload["note"] = ("the disagreement disappears when every undefined ground fluent is given a value: one side reads "
+                               "an undefined fluent in a condition/value that the other side (or its simplification) does not evaluate")
         ctx.fail("oracle" if confirmed else "corr",
                  ("the two readers' problems differ (%s; first = UP reader, second = AI reader)%s" if pid == "c21" else
                   "%s reader: re-read problem differs from the original (%%s)%%s" % o["reader"]) % (why, "" if confirmed else " [not reproduced by the simulator oracle]"),
